@@ -702,6 +702,23 @@ def gen_alm_case(rng, max_words=10, max_len=6):
             toks = gen_word(rng, 1, max_len)
         words.append({"id": i, "doc": rng.choice(docs), "concept": "c%d" % rng.randint(1, 3), "cog": cog,
                       "tokens": toks})
+    if rng.random() < 0.3:
+        # a second cognate set made of the SAME word forms, distributed over the doculects in another order: the two
+        # sets are different sets (different row order), whatever their forms
+        by_cog = {}
+        for w in words:
+            if w["cog"]:
+                by_cog.setdefault(w["cog"], []).append(w)
+        cands = [ms for ms in by_cog.values() if len(ms) >= 2 and len({tuple(m["tokens"]) for m in ms}) >= 2]
+        if cands:
+            ms = rng.choice(cands)
+            forms = [list(m["tokens"]) for m in ms]
+            perm = forms[1:] + forms[:1] if rng.random() < 0.5 else forms[::-1]
+            new_cog = max(by_cog) + 1
+            free = [i for i in range(1, 70) if i not in {w["id"] for w in words}]
+            for m, toks, i in zip(ms, perm, rng.sample(free, len(ms))):
+                words.append({"id": i, "doc": m["doc"], "concept": "twin", "cog": new_cog, "tokens": toks})
+            rng.shuffle(words)
     kw = {"method": rng.choice(METHODS), "tree_calc": rng.choice(["upgma", "neighbor"]), "mode": rng.choice(MODES),
           "gop": rng.choice(GOPS), "scale": rng.choice(SCALES), "factor": rng.choice(FACTORS),
           "gap_weight": rng.choice(GAPWS), "iteration": rng.random() < 0.4, "swap_check": rng.random() < 0.3,
